@@ -770,6 +770,8 @@ class Ctx:
     # -- observe
     def who(self, obj: Any):
         t = self.objmap.get(id(obj))
+        if t is None and getattr(self, "who_fallback", None) is not None:
+            t = self.who_fallback(obj)
         if t is None:
             raise HarnessError(f"unknown validator object in result: {obj!r}")
         return t
